@@ -543,7 +543,7 @@ def c20(run):
     if st.get("obs", 0) == 0 or st.get("snaps", 0) == 0:
         vacuous(run, "vacuous run")
     return vlib.finish(run, "model_checking",
-                       rule=("TLC -simulate walks Session.tla (operations: execute one of 25 queries - native, failing with many-to-many, falling "
+                       rule=("TLC -simulate walks Session.tla (operations: execute one of 28 queries - native, failing with many-to-many, falling "
                              "back, subquery - over 3 windows, plainly or with the context cancelled before/during execution; append samples, a "
                              "new series, a staleness marker, a gap; close an earlier query) to histories of 12, 30 and 50 operations. Each is "
                              "replayed on ONE engine and one growing storage: after every operation every earlier result is compared with its "
